@@ -322,7 +322,7 @@ theorem subsume_frag_aux (H : Hyp a T) (R : Ptr → Rat) {ws1 ws2 : List Word} {
               subst hnil
               exact ⟨by simp; omega, by rw [hord]; simp; omega⟩
             · omega
-        · exact closed_of_cn H ws1 ws2 Lw (by omega) (by simpa [h] using hcn)
+        · exact closed_of_cn H ws1 ws2 Lw (by omega) (by simpa [h] using hcn.toCN)
       refine ⟨ws1.length + Lw, fragC_build R G1 hfull1' G2 Lw _ _ (by omega) hb e2 G2.right_norm (by rw [hwritten]) hxl ?_
         (fun hc => by simp at hc) (fun _ => hcl)⟩
       rw [e1]
@@ -361,7 +361,7 @@ theorem subsume_frag_aux (H : Hyp a T) (R : Ptr → Rat) {ws1 ws2 : List Word} {
           · rw [hwritten, G1.ptrs] at hc
             simp only [List.length_map, List.length_range] at hc
             omega
-        · exact closed_of_cn H ws1 ws2 Lw (by omega) (by simpa [h] using hcn)
+        · exact closed_of_cn H ws1 ws2 Lw (by omega) (by simpa [h] using hcn.toCN)
 
 end KV.Left
 
